@@ -60,7 +60,10 @@ try:
     # suite without the demo
     for _, rel in placed:
         os.remove(os.path.join(wt, rel))
-    rc_s, out_s = sh('/verif/tools/baseline.sh ' + wt, wt)
+    for attempt in range(4):  # TestAnonUnix/TestUnix bind fixed addresses: concurrent runs in other worktrees collide
+        rc_s, out_s = sh('/verif/tools/baseline.sh ' + wt, wt)
+        if rc_s == 0:
+            break
     res['suite_passes_with_change'] = rc_s == 0
     res['suite_line'] = out_s.strip().split('\n')[0]
     # checks
